@@ -469,6 +469,20 @@ func runHistory(o *out, id int, c hcase) {
 		}
 		o.printf("W => %d %s\n", w.calls, strings.Join(parts, " "))
 	}
+	// every payload Resolve returned is kept next to a copy of what it held: a later operation must not change it
+	var held [][2][]byte
+	overwritten := false
+	hold := func(p []byte) {
+		for _, h := range held {
+			if !bytes.Equal(h[0], h[1]) && !overwritten {
+				overwritten = true
+				o.printf("NOTE resolve-result-overwritten-by-a-later-call\n")
+			}
+		}
+		if p != nil && len(held) < 64 {
+			held = append(held, [2][]byte{p, append([]byte{}, p...)})
+		}
+	}
 	for _, h := range c.ops {
 		switch h.op {
 		case 'A':
@@ -489,6 +503,7 @@ func runHistory(o *out, id int, c hcase) {
 				o.printf("R => none\n")
 			} else {
 				o.printf("R => %s\n", renderSmart(c.kind, p))
+				hold(p)
 			}
 			// Resolve must be repeatable: a second call returns the same bytes
 			p2, err2 := coll.Resolve()
@@ -505,6 +520,13 @@ func runHistory(o *out, id int, c hcase) {
 				o.printf("F => err\n")
 			} else {
 				o.printf("F => ok\n")
+			}
+		case 'N':
+			// metadata that cannot be read as a document (the library refuses string maps)
+			if err := coll.SetMetadata(map[string]string{"not": "a document"}); err != nil {
+				o.printf("N => err\n")
+			} else {
+				o.printf("N => ok\n")
 			}
 		case 'M':
 			err := coll.SetMetadata(encDoc(h.doc))
@@ -523,6 +545,7 @@ func runHistory(o *out, id int, c hcase) {
 				o.printf("r => none\n")
 			} else {
 				o.printf("r => %s\n", renderSmart(c.kind, p))
+				hold(p)
 			}
 			info := coll.Info()
 			o.printf("i => %d %d\n", info.MetricsCount, info.SampleCount)
